@@ -53,10 +53,47 @@ def clsRefOfRef (t : SX) : Bool :=
     | .list [.atom "ref", .list [.atom "ref", _]] => true
     | _ => false
 
-/-- `(a < b) > (…)` prints as `a < b > (…)`, which the parser reads as an invocation with type arguments -/
+/-- first operand chain: what the printed form of `t` starts with (when no parentheses intervene) -/
+partial def leftEdgeHas (p : SX → Bool) (t : SX) : Bool :=
+  p t || (match t with
+    | .list [.atom "bin", _, l, _] => leftEdgeHas p l
+    | .list [.atom "cast", _, e, _] => leftEdgeHas p e
+    | .list [.atom "cond", c, _, _] => leftEdgeHas p c
+    | .list [.atom "force", e] => leftEdgeHas p e
+    | .list [.atom "mem", e, _] => leftEdgeHas p e
+    | .list [.atom "omem", e, _] => leftEdgeHas p e
+    | .list [.atom "idx", e, _] => leftEdgeHas p e
+    | .list [.atom "inv", e, _, _] => leftEdgeHas p e
+    | _ => false)
+
+/-- last operand chain: what the printed form of `t` ends with -/
+partial def rightEdgeHas (p : SX → Bool) (t : SX) : Bool :=
+  p t || (match t with
+    | .list [.atom "bin", _, _, r] => rightEdgeHas p r
+    | .list [.atom "un", _, e] => rightEdgeHas p e
+    | .list [.atom "ref", e] => rightEdgeHas p e
+    | .list [.atom "cond", _, _, e] => rightEdgeHas p e
+    | _ => false)
+
+def isBin (op : String) : SX → Bool
+  | .list [.atom "bin", .atom o, _, _] => o == op
+  | _ => false
+
+/-- a `<` whose right operand begins with a `>` comparison, or a `>` whose left operand ends with a `<`
+    comparison: the printed form contains `a < T > (`-like text, which the parser's `<` meta left
+    denotation tries as type arguments of an invocation (`(a < b) > (c)` prints `a < b > (c)`) -/
 def clsComparisonChain (t : SX) : Bool :=
   t.any fun n => match n with
-    | .list [.atom "bin", .atom ">", .list [.atom "bin", .atom "<", _, _], _] => true
+    | .list [.atom "bin", .atom "<", _, r] => leftEdgeHas (isBin ">") r
+    | .list [.atom "bin", .atom ">", l, _] => rightEdgeHas (isBin "<") l
+    | _ => false
+
+/-- `a < (fun () {})` prints `a < fun () {}`: after `<` the speculative type-argument parse reads
+    `fun (` as a function type and reports its error instead of falling back to the comparison -/
+def clsLessFun (t : SX) : Bool :=
+  t.any fun n => match n with
+    | .list [.atom "bin", .atom "<", _, r] =>
+      leftEdgeHas (fun x => match x with | .list [.atom "oof", .atom k] => k == "*ast.FunctionExpression" | _ => false) r
     | _ => false
 
 /-- the right edge of `t` (through unauthorized references) is a function type -/
@@ -83,6 +120,7 @@ def classifySx (t : SX) : String :=
   else if clsComparisonChain t then "comparison-chain-reparsed-as-type-arguments"
   else if clsOptRefFun t then "optional-of-reference-to-function-type"
   else if clsLessDestroyDict t then "less-than-before-parenthesised-destroy-dictionary"
+  else if clsLessFun t then "less-than-before-function-expression"
   else "roundtrip-mismatch"
 
 /-- program-level failures without a failing sub-expression: the JSON diff summary decides -/
